@@ -4,6 +4,7 @@ package main
 import (
 	"bytes"
 	"fmt"
+	"net/netip"
 	"strconv"
 
 	"github.com/cilium/statedb"
@@ -56,6 +57,52 @@ func (*eng) Gen(r *hx.Rand, n int, tier string, prop string, out *hx.Out) {
 				for _, s2 := range small {
 					out.P("cmp %s %s %s %s", hx.Hex(p1), hx.Hex(s1), hx.Hex(p2), hx.Hex(s2))
 				}
+			}
+		}
+	}
+	out.P("#case netip-prefixes")
+	{
+		g := r.Fork()
+		for i := 0; i < 400; i++ {
+			var a []byte
+			fam := "v6"
+			switch g.Intn(3) {
+			case 0:
+				fam = "v4"
+				a = []byte{byte(g.Intn(256)), byte(g.Intn(256)), byte(g.Intn(256)), byte(g.Intn(256))}
+			case 1:
+				a = make([]byte, 16)
+				for j := range a {
+					a[j] = byte(g.Intn(256))
+				}
+			default: // IPv4-mapped IPv6
+				a = []byte{0, 0, 0, 0, 0, 0, 0, 0, 0, 0, 0xff, 0xff, byte(g.Intn(256)), byte(g.Intn(256)), byte(g.Intn(256)), byte(g.Intn(256))}
+			}
+			if g.Chance(30) { // host bits set right after the prefix boundary / all ones
+				for j := range a {
+					if fam == "v4" || j >= 12 || g.Chance(50) {
+						a[j] |= byte(0xff >> uint(g.Intn(8)))
+					}
+				}
+				if fam == "v6" && len(a) == 16 && g.Chance(50) {
+					a[10], a[11] = 0xff, 0xff
+				}
+			}
+			w := 8 * len(a)
+			bits := g.Intn(w + 1)
+			if g.Chance(25) {
+				bits = hx.Pick(g, []int{0, 1, 7, 8, 9, 23, 24, 25, 30, 31, 32})
+			}
+			if bits > w {
+				bits = w
+			}
+			out.P("nipp %s %s %d", fam, hx.Hex(a), bits)
+		}
+		// sibling prefixes that differ only in the bit just inside a non-byte-aligned length
+		for _, c := range [][2]string{{"0a000000", "0a800000"}, {"c0a80000", "c0a80200"}, {"0a010204", "0a010208"}} {
+			for _, b := range []int{9, 23, 30} {
+				out.P("nipp v4 %s %d", c[0], b)
+				out.P("nipp v4 %s %d", c[1], b)
 			}
 		}
 	}
@@ -348,6 +395,49 @@ func (e *eng) Op(f []string, line string, out *hx.Out) {
 				bad = " !BAD:C18:lpm-roundtrip"
 			}
 			out.P("M:C18 %s%s", hx.Hex(k), bad)
+		}()
+	case "nipp":
+		// nipp v4|v6 <addr hex> <bits>: index.NetIPPrefix and lpm.NetIPPrefixToIndexKey of the prefix; v6 with an
+		// address ::ffff:a.b.c.d is an IPv4-mapped IPv6 prefix (not unmapped: its length counts in the 128-bit space)
+		a := hx.UnHex(f[2])
+		bits, _ := strconv.Atoi(f[3])
+		var addr netip.Addr
+		if f[1] == "v4" && len(a) == 4 {
+			addr = netip.AddrFrom4([4]byte(a))
+		} else if f[1] == "v6" && len(a) == 16 {
+			addr = netip.AddrFrom16([16]byte(a))
+		} else {
+			out.P("E nipp")
+			return
+		}
+		pfx := netip.PrefixFrom(addr, bits)
+		if !pfx.IsValid() {
+			out.P("E nipp invalid")
+			return
+		}
+		func() {
+			defer func() {
+				if recover() != nil {
+					out.P("P:C18 panic")
+				}
+			}()
+			ik := index.NetIPPrefix(pfx)
+			lk := lpm.NetIPPrefixToIndexKey(pfx)
+			bad := ""
+			// semantic oracles: the index key identifies the masked prefix (17 bytes: 16-byte form + length); the LPM
+			// key decodes to the masked 16-byte form with the length in the 128-bit space
+			m16 := pfx.Masked().Addr().As16()
+			if len(ik) != 17 || !bytes.Equal(ik[:16], m16[:]) || int(ik[16]) != bits {
+				bad += " !BAD:C18:netip-prefix-index-key"
+			}
+			want := bits
+			if addr.Is4() {
+				want += 96
+			}
+			if d, pl := lpm.DecodeLPMKey(lk); int(pl) != want || !bytes.Equal(d, m16[:(want+7)/8]) {
+				bad += " !BAD:C18:netip-prefix-lpm-key"
+			}
+			out.P("P:C18 idx=%s lpm=%s%s", hx.Hex(ik), hx.Hex(lk), bad)
 		}()
 	case "lpmdec":
 		func() {
